@@ -5,14 +5,11 @@ cd "$(dirname "$0")"
 export CARGO_NET_OFFLINE=true
 mkdir -p work evidence replays
 python3 translator/translate.py --repo /repo --out lean/BroodModel/Generated --report work/extraction_report.json
-python3 harness/gen/gen_family.py Reg4 szlh shz harness/src/gen_reg4.rs
-python3 harness/gen/gen_family.py Reg10 szlhshzslh shz harness/src/gen_reg10.rs
-python3 harness/gen/gen_family.py Reg8 szlhshzs shz harness/src/gen_reg8.rs
-for g in harness/gen/gen_*.py; do
-  b=$(basename "$g" .py)
-  [ "$b" = gen_family ] && continue
-  python3 "$g" "harness/src/$b.rs"
-done
+python3 harness/gen/gen_family.py Reg4 szlh shz harness/hcore/src/gen_reg4.rs
+python3 harness/gen/gen_family.py Reg10 szlhshzslh shz harness/hcore/src/gen_reg10.rs
+python3 harness/gen/gen_family.py Reg8 szlhshzs shz harness/hcore/src/gen_reg8.rs
+python3 harness/gen/gen_queries.py harness/hcore/src/gen_queries.rs
+python3 harness/gen/gen_sched.py harness/src/gen_sched.rs
 [ -f harness/Cargo.lock ] || cp /repo/Cargo.lock harness/Cargo.lock
 (cd harness && cargo build --offline)
 (cd lean && lake build BroodModel driver)
